@@ -11,10 +11,13 @@ FIXES = [
     ('7d7c1b0', 'C18', 'D7a eval exceptions'),
     ('189f161', 'C16', 'D9 suite glob pattern errors'),
     ('0b3063b', 'C14', 'D3 splitlines'),
-    ('7d34be7', 'C18', 'D7b replace template'),
+    ('537c9db+7d34be7', 'C18', 'D7b replace template (with its follow-up)'),
     ('83ad2f4', 'C18', 'D8 empty glob pattern'),
     ('fb2ee40', 'C13', 'D2 inversion of hull'),
     ('6d2962e', 'C14', 'D4 byte comparison'),
+    ('4b6fb93', 'C18', 'D10 form feed line IndexError'),
+    ('537c9db', 'C18', 'D11 unknown group name in replacement'),
+    ('e1e8052', 'C18', 'D12 integer too large for text'),
 ]
 
 
@@ -37,7 +40,10 @@ def main():
         evd = tempfile.mkdtemp(prefix='fixev-', dir='/tmp')
         try:
             sh(['git', '-C', '/repo', 'worktree', 'add', '-q', '--detach', wt, 'HEAD'])
-            r = sh('git -C %s show %s | git -C %s apply -R' % (wt, commit, wt))
+            for one in commit.split('+'):
+                r = sh('git -C %s show %s | git -C %s apply -R' % (wt, one, wt))
+                if r.returncode:
+                    break
             if r.returncode:
                 print('ERROR %s: cannot reverse-apply: %s' % (commit, r.stdout[-300:]))
                 bad += 1
